@@ -31,6 +31,8 @@ func runC16(c *Ctx) {
 	c.rule("Y5", "TransferFiles returns success only where hash(source) equals a recomputed (forced) hash of the destination", 2)
 	c.rule("Y6", "unpackPackageToLocalDestination unzips the verified temporary copy returned by TransferFiles, after it succeeded", 1)
 	c.rule("Y8", "getHash hands back the content of the .hash side file only where its length equals the digest length (or does not ignore the outcome of writing it)", 1)
+	c.rule("Y11", "immutable cache: the listing is sorted newest first, Fetch takes its element 0 and CleanEntry never removes element 0", 3)
+	c.rule("Y10", "immutable CleanEntry decides what to keep and what to remove on a single listing of the entry directory", 1)
 	c.rule("Y9", "Fetch installs exactly one version: the destination is emptied unconditionally (a clean without exclusion patterns) before the package is unpacked into it, in both caches", 3)
 	c.rule("Y7", "Fetch/Store report the failure of the work they did: no deferred literal overwrites the error result unconditionally", 4)
 
@@ -89,6 +91,25 @@ func (c *Ctx) c16SideFile() {
 		}
 		// only values that can actually be the side file's content along this return
 		guarded := onBoolSide(r, true, func(v ssa.Value) bool {
+			if hc, ok := v.(*ssa.Call); ok {
+				// a package-local predicate whose result is a comparison of the length of its parameter with a constant
+				if g := staticCallee(&hc.Call); g != nil && g.Blocks != nil && len(g.Params) == 1 && len(hc.Call.Args) == 1 && fromSide(hc.Call.Args[0]) {
+					isLenTest := false
+					allInstrs(g, func(j ssa.Instruction) {
+						if b, ok := j.(*ssa.BinOp); ok && b.Op == token.EQL {
+							if lc, ok := b.X.(*ssa.Call); ok {
+								if bi, isB := lc.Call.Value.(*ssa.Builtin); isB && bi.Name() == "len" && lc.Call.Args[0] == ssa.Value(g.Params[0]) {
+									if k, isC := constInt(b.Y); isC && k > 0 {
+										isLenTest = true
+									}
+								}
+							}
+						}
+					})
+					return isLenTest
+				}
+				return false
+			}
 			cmp, ok := v.(*ssa.BinOp)
 			if !ok || cmp.Op != token.EQL {
 				return false
@@ -764,6 +785,90 @@ func (c *Ctx) c16Immutable() {
 				}
 			})
 			c.check(uses, "Y4", fname(f)+"/listing", c.pos(f.Pos()), "lists through listCompleteFilesByModTime", "no longer lists through listCompleteFilesByModTime")
+			if f.Name() == "findCachedPackageFromEntryDir" {
+				// Y11 (picker): the package Fetch unpacks is the first of the listing, which is sorted newest first.
+				picksFirst, n := true, 0
+				allInstrs(f, func(in ssa.Instruction) {
+					r, ok := in.(*ssa.Return)
+					if !ok || len(r.Results) == 0 {
+						return
+					}
+					for _, ia := range c16ElemAccesses(r.Results[0]) {
+						n++
+						if k, isConst := constInt(ia.Index); !isConst || k != 0 {
+							picksFirst = false
+						}
+					}
+				})
+				c.check(picksFirst && n > 0, "Y11", fname(f)+"/picks-first", c.pos(f.Pos()), "the package handed to Fetch is element 0 of the newest-first listing",
+					"the package handed to Fetch is not element 0 of the listing (sorted newest first): after a successful Store, Fetch returns an older version")
+			}
+			if f.Name() == "CleanEntry" {
+				// Y11 (keeper): CleanEntry never removes element 0 of that listing, the version Fetch returns.
+				removesFirst := ""
+				allInstrs(f, func(in ssa.Instruction) {
+					name, args, ok := fsMethodCall(in)
+					if !ok || !(name == "Rm" || name == "RemoveWithContext" || name == "Remove") || len(args) == 0 {
+						return
+					}
+					for _, ia := range c16ElemAccesses(args[len(args)-1]) {
+						if sl, isSlice := ia.X.(*ssa.Slice); isSlice {
+							if k, isConst := constInt(sl.Low); isConst && k >= 1 {
+								continue
+							}
+						}
+						if !c16MayBeZero(ia.Index) {
+							continue
+						}
+						// a guard that compares the index with 0, or the name with element 0, protects it
+						guarded := false
+						allInstrs(f, func(g ssa.Instruction) {
+							b, isBin := g.(*ssa.BinOp)
+							if !isBin || (b.Op != token.EQL && b.Op != token.NEQ && b.Op != token.GTR && b.Op != token.LSS) || !dominates(b, in) {
+								return
+							}
+							for _, o := range []ssa.Value{b.X, b.Y} {
+								if k, isConst := constInt(o); isConst && k == 0 {
+									guarded = true
+								}
+								for _, e := range c16ElemAccesses(o) {
+									if k, isConst := constInt(e.Index); isConst && k == 0 {
+										guarded = true
+									}
+								}
+							}
+						})
+						if !guarded {
+							removesFirst = c.ipos(in)
+						}
+					}
+				})
+				c.check(removesFirst == "", "Y11", fname(f)+"/keeps-first", c.pos(f.Pos()), "element 0 of the newest-first listing is never removed",
+					"the removal at "+removesFirst+" can be handed element 0 of the listing, the most recent complete version: the version a successful Store has just published — the one Fetch must return — is removed")
+			}
+			if f.Name() == "CleanEntry" {
+				// Y10: what is kept and what is removed is decided on one snapshot of the entry directory. With two
+				// listings a Store that completes between them is in the second and not in the first: the version
+				// kept is the older one and the version just stored — the one Fetch must now return — is removed.
+				var sites []string
+				allInstrs(f, func(in ssa.Instruction) {
+					if cl, ok := in.(*ssa.Call); ok {
+						if g := staticCallee(&cl.Call); g != nil && c16Reaches(g, lister, 4) {
+							sites = append(sites, c.ipos(cl))
+						}
+					}
+				})
+				inLoopSite := false
+				allInstrs(f, func(in ssa.Instruction) {
+					if cl, ok := in.(*ssa.Call); ok {
+						if g := staticCallee(&cl.Call); g != nil && c16Reaches(g, lister, 4) && inLoop(cl) {
+							inLoopSite = true
+						}
+					}
+				})
+				c.check(len(sites) == 1 && !inLoopSite, "Y10", fname(f)+"/one-snapshot", c.pos(f.Pos()), "the entry directory is listed once; what is kept and what is removed come from that one listing",
+					"the entry directory is listed more than once ("+strings.Join(sites, ", ")+"): a Store that completes between the listings appears in the later one only — the version kept is the one chosen from the earlier listing, and the version just stored, which Fetch must return from now on, is removed with the rest")
+			}
 		}
 	}
 	if lister != nil {
@@ -792,6 +897,44 @@ func (c *Ctx) c16Immutable() {
 				use = cl
 			}
 		})
+		// Y11 (order): the comparator handed to the sort says "i before j when i is more recent"
+		newestFirst, nCmp := true, 0
+		for _, an := range lister.AnonFuncs {
+			if len(an.Params) != 2 || an.Signature.Results().Len() != 1 {
+				continue
+			}
+			allInstrs(an, func(in ssa.Instruction) {
+				r, ok := in.(*ssa.Return)
+				if !ok {
+					return
+				}
+				cl, ok := r.Results[0].(*ssa.Call)
+				if !ok {
+					newestFirst = false
+					return
+				}
+				nCmp++
+				argIdx := func(v ssa.Value) int {
+					for _, e := range c16ElemAccessesThroughFields(v) {
+						return paramIndex(an, e.Index)
+					}
+					return -1
+				}
+				var a, b int
+				if len(cl.Call.Args) == 2 {
+					a, b = argIdx(cl.Call.Args[0]), argIdx(cl.Call.Args[1])
+				}
+				switch calleeFull(&cl.Call) {
+				case "(time.Time).After":
+					newestFirst = newestFirst && a == 0 && b == 1
+				case "(time.Time).Before":
+					newestFirst = newestFirst && a == 1 && b == 0
+				default:
+					newestFirst = false
+				}
+			})
+		}
+		c.check(newestFirst && nCmp > 0, "Y11", fname(lister)+"/newest-first", c.pos(lister.Pos()), "sorted by modification time, most recent first", "the listing is not (recognisably) sorted most recent first: element 0, which Fetch takes and CleanEntry keeps, is not the version stored last")
 		good := use != nil && onBoolSide(use, false, isExtTest(".part")) && onBoolSide(use, false, isExtTest(".hash"))
 		// and whatever is appended to the result list comes from that guarded region
 		pos := c.pos(lister.Pos())
@@ -800,6 +943,137 @@ func (c *Ctx) c16Immutable() {
 		}
 		c.check(good, "Y4", fname(lister)+"/filter", pos, "items used only where neither .part nor .hash", "an entry is used without both the '.part' and the '.hash' extension tests being false: half-written uploads or hash side files are treated as packages")
 	}
+}
+
+// c16ElemAccesses collects the element accesses (x[i]) a value is built from, looking through joins, conversions,
+// concatenations, phis and local variables.
+func c16ElemAccesses(v ssa.Value) []*ssa.IndexAddr {
+	seen := map[ssa.Value]bool{}
+	var out []*ssa.IndexAddr
+	var walk func(v ssa.Value)
+	walk = func(v ssa.Value) {
+		if v == nil || seen[v] {
+			return
+		}
+		seen[v] = true
+		switch x := v.(type) {
+		case *ssa.Phi:
+			for _, e := range x.Edges {
+				walk(e)
+			}
+		case *ssa.Convert:
+			walk(x.X)
+		case *ssa.ChangeType:
+			walk(x.X)
+		case *ssa.MakeInterface:
+			walk(x.X)
+		case *ssa.BinOp:
+			if x.Op == token.ADD {
+				walk(x.X)
+				walk(x.Y)
+			}
+		case *ssa.Call:
+			switch calleeFull(&x.Call) {
+			case "path/filepath.Join", "path/filepath.Clean", "fmt.Sprintf", "path.Join":
+				for _, a := range x.Call.Args {
+					walk(a)
+					for _, e := range variadicElems(a) {
+						walk(e)
+					}
+				}
+			}
+		case *ssa.UnOp:
+			if x.Op != token.MUL {
+				return
+			}
+			switch a := x.X.(type) {
+			case *ssa.IndexAddr:
+				out = append(out, a)
+			case *ssa.Alloc:
+				st, _ := reachingStores(x, a)
+				for _, sv := range st {
+					walk(sv)
+				}
+			}
+		}
+	}
+	walk(v)
+	return out
+}
+
+// c16ElemAccessesThroughFields: like c16ElemAccesses, also looking through field selections and struct loads (x[i].field).
+func c16ElemAccessesThroughFields(v ssa.Value) []*ssa.IndexAddr {
+	for d := 0; d < 6; d++ {
+		switch x := v.(type) {
+		case *ssa.UnOp:
+			if ia, ok := x.X.(*ssa.IndexAddr); ok {
+				return []*ssa.IndexAddr{ia}
+			}
+			v = x.X
+		case *ssa.FieldAddr:
+			v = x.X
+		case *ssa.Field:
+			v = x.X
+		case *ssa.IndexAddr:
+			return []*ssa.IndexAddr{x}
+		default:
+			return nil
+		}
+	}
+	return nil
+}
+
+// c16MayBeZero: the index is 0, or a loop counter that starts at 0 (also in the rotated form of range loops, -1 then +1).
+func c16MayBeZero(idx ssa.Value) bool {
+	switch x := idx.(type) {
+	case *ssa.Const:
+		k, ok := constInt(x)
+		return ok && k == 0
+	case *ssa.Phi:
+		for _, e := range x.Edges {
+			if k, ok := constInt(e); ok && k == 0 {
+				return true
+			}
+		}
+	case *ssa.BinOp:
+		if x.Op == token.ADD {
+			if ph, ok := x.X.(*ssa.Phi); ok {
+				if one, ok := constInt(x.Y); ok && one == 1 {
+					for _, e := range ph.Edges {
+						if k, ok := constInt(e); ok && k == -1 {
+							return true
+						}
+					}
+				}
+			}
+		}
+	}
+	return false
+}
+
+// c16Reaches reports whether g is target or calls it through at most depth static calls.
+func c16Reaches(g, target *ssa.Function, depth int) bool {
+	if g == nil || target == nil {
+		return false
+	}
+	if g == target {
+		return true
+	}
+	if depth == 0 || g.Blocks == nil {
+		return false
+	}
+	found := false
+	allInstrs(g, func(in ssa.Instruction) {
+		if found {
+			return
+		}
+		if ci, ok := in.(ssa.CallInstruction); ok {
+			if h := staticCallee(ci.Common()); h != nil && h != g && c16Reaches(h, target, depth-1) {
+				found = true
+			}
+		}
+	})
+	return found
 }
 
 // variadicElems returns the values stored in the backing array of a variadic
@@ -982,6 +1256,9 @@ func (c *Ctx) c16DestinationEmptied() {
 			return false, ""
 		}
 		switch name {
+		case "Rm", "RemoveWithContext":
+			// removing the destination altogether empties it as well (it is re-created afterwards or by the unpacking)
+			return resolveValue(args[len(args)-1]) == ssa.Value(dest), ""
 		case "CleanDir", "CleanDirWithContext":
 			return resolveValue(args[len(args)-1]) == ssa.Value(dest), ""
 		case "CleanDirWithContextAndExclusionPatterns":
